@@ -314,6 +314,13 @@ class Effects:
                             if cn.split("::")[-1] == "filter":
                                 return parent, ('ref', ('ok', recv))      # the predicate receives a reference to the payload
                             return parent, ('ok', recv)
+            if "Iterator::" in cn and cn.split("::")[-1] in ITER_CLOSURE_STAGES:
+                for i, a in enumerate(c.t["args"]):
+                    if a["k"] in ("move", "copy") and a["pl"]["l"] == clo_local and "p" not in a["pl"] and i >= 1:
+                        it = iter_item(c.arg(0))
+                        if it is not None and param_idx == 2:
+                            by_ref = cn.split("::")[-1] in ("take_while", "skip_while", "filter", "find", "position", "inspect")
+                            return parent, (('ref', it) if by_ref and cn.split("::")[-1] != "position" else it)
             if cn.split("::")[-1] in ("map_err", "or_else", "unwrap_or_else") and "Result::" in cn:
                 for i, a in enumerate(c.t["args"]):
                     if a["k"] in ("move", "copy") and a["pl"]["l"] == clo_local and "p" not in a["pl"] and i >= 1:
@@ -367,6 +374,87 @@ class Effects:
             return x
         lt = norm(lt)
         return self.in_parent(pb, lt, depth + 1, tag_own) if pb.kind == "Closure" else (pb, lt)
+
+
+def context_facts(eff, cb):
+    """facts that hold on entry to a closure because of where it sits in an iterator chain, in the defining function's terms:
+    a closure passed to `.take_while(p)...for_each(f)` / `.filter(p).map(f)` only ever sees items for which p(item) is true"""
+    from .mir import rels_of_bool
+    env = eff.closure_env(cb)
+    if not env:
+        return []
+    parent, _ops, _pos, clo_local = env
+    out = []
+    for c in parent.calls():
+        cn = canon(c.target or "")
+        if "Iterator::" not in cn or cn.split("::")[-1] not in ITER_CLOSURE_STAGES:
+            continue
+        if not any(a["k"] in ("move", "copy") and a["pl"]["l"] == clo_local and "p" not in a["pl"] for a in c.t["args"][1:]):
+            continue
+        for pclo in _upstream_predicates(c.arg(0)):
+            if pclo[0] != 'agg':
+                continue
+            pb = eff.prog.by_id.get(pclo[1])
+            if pb is None:
+                continue
+            rts = pb.return_terms()
+            if len(rts) != 1:
+                continue
+            _pp, pt = eff.in_parent(pb, rts[0][1])
+            out.extend(rels_of_bool(pt, True))
+    return out
+
+
+def facts_in_parent(eff, cb, pos):
+    """facts_at(pos) of a closure body rewritten into the defining function's terms, plus the context facts of its chain"""
+    out = []
+    for r in cb.facts_at(pos):
+        if r[0] == 'cmp':
+            out.append(('cmp', r[1], eff.in_parent(cb, r[2], tag_own=True)[1], eff.in_parent(cb, r[3], tag_own=True)[1]))
+        elif r[0] in ('bool', 'discr'):
+            out.append((r[0], eff.in_parent(cb, r[1], tag_own=True)[1], r[2]))
+    out.extend(context_facts(eff, cb))
+    return out
+
+
+ITER_CLOSURE_STAGES = ("for_each", "map", "filter", "take_while", "skip_while", "all", "any", "find", "position", "inspect")
+_ITEM_PRESERVING = ("take_while", "skip_while", "filter", "take", "skip", "rev", "inspect", "into_iter", "by_ref", "fuse", "peekable")
+
+
+def iter_item(chain):
+    """the item an iterator chain yields, as a term `iter_item(source)`: stages that only select items are skipped; a stage that
+    transforms items (map, enumerate, zip, ..) is not understood -> None"""
+    t = deep_strip(chain)
+    while t[0] in ('ref', 'deref'):
+        t = deep_strip(t[1])
+    if t[0] == 'call':
+        last = canon(t[1]).split("::")[-1]
+        if last in _ITEM_PRESERVING and t[2]:
+            return iter_item(t[2][0])
+        if canon(t[1]).endswith("RangeInclusive::new") or last in ("iter", "iter_mut", "windows", "drain"):
+            return ('call', 'iter_item', (t,), ())
+        return None
+    if t[0] == 'agg' and str(t[1]).endswith("ops::Range"):
+        return ('call', 'iter_item', (t,), ())
+    return None
+
+
+def _upstream_predicates(chain):
+    """closures of the selecting stages take_while(p) / filter(p) found on the way down the chain"""
+    out = []
+    t = deep_strip(chain)
+    while True:
+        while t[0] in ('ref', 'deref'):
+            t = deep_strip(t[1])
+        if t[0] != 'call' or not t[2]:
+            return out
+        last = canon(t[1]).split("::")[-1]
+        if last in ("take_while", "filter") and len(t[2]) == 2:
+            out.append(deep_strip(t[2][1]))
+        if last in _ITEM_PRESERVING:
+            t = deep_strip(t[2][0])
+            continue
+        return out
 
 
 def write_sites(prog, eff):
